@@ -143,6 +143,32 @@ Fixpoint select_tabs {X} (m : list bool) (tabs : list (list X)) : list (list X) 
 (* ------------------------------------------------------------------ comparison helpers for cases files *)
 Definition bl_eqb := list_eqb Bool.eqb.
 
+(* ------------------------------------------------------------------ _restart_connectivity_check (pipeflow.py) *)
+(* structural part over the ACTIVE columns: if a component changed ACTIVE in the active pit, the change is written back
+   to the pit rows of the mask, the masks are identified again ([ident], a parameter) and the pit is reduced again *)
+Close Scope Z_scope.
+Fixpoint scatter {V} (m : list bool) (act full : list V) : list V :=
+  match m, full with
+  | true :: mr, f :: fr => match act with a :: ar => a :: scatter mr ar fr | [] => f :: fr end
+  | false :: mr, f :: fr => f :: scatter mr act fr
+  | _, _ => full
+  end.
+
+Record rstate := { r_pn : list bool; r_pb : list bool;       (* ACTIVE columns of the full node / branch pit *)
+                   r_mn : list bool; r_mb : list bool;       (* node / branch masks *)
+                   r_an : list bool; r_ab : list bool }.     (* ACTIVE columns of the active pits *)
+
+Definition restart_check (ident : list bool -> list bool -> list bool * list bool) (s : rstate) : bool * rstate :=
+  if bl_eqb (select (r_mn s) (r_pn s)) (r_an s) && bl_eqb (select (r_mb s) (r_pb s)) (r_ab s) then (false, s)
+  else
+    let pn := scatter (r_mn s) (r_an s) (r_pn s) in
+    let pb := scatter (r_mb s) (r_ab s) (r_pb s) in
+    let mm := ident pn pb in
+    (true, {| r_pn := pn; r_pb := pb; r_mn := fst mm; r_mb := snd mm;
+              r_an := select (fst mm) pn; r_ab := select (snd mm) pb |}).
+
+Open Scope Z_scope.
+
 Record conn_case := {
   cc_n : nat; cc_bs : list branch; cc_nact : list bool; cc_slack : list bool; cc_check : bool;
   cc_obs : option (list bool * list bool) }.          (* None = PipeflowNotConverged *)
@@ -186,3 +212,13 @@ Definition red_case_ok (c : red_case) : bool :=
   && ft_eqb (reduce_from_to (rc_bmask c) (rc_branch_fts c) (rc_branch_fts c)) (rc_branch_ft_active c)
   && zl_eqb (select (rc_nmask c) (rc_node_elm c)) (rc_active_node_elm c)
   && zl_eqb (select (rc_bmask c) (rc_branch_elm c)) (rc_active_branch_elm c).
+
+(* _restart_connectivity_check: the real function's outcome is carried in the case; the re-identified masks are the
+   observed ones (identification itself is tied by conn_case) *)
+Record rs_case := { rs_state : rstate; rs_masks : list bool * list bool; rs_flag : bool;
+                    rs_pn : list bool; rs_pb : list bool; rs_an : list bool; rs_ab : list bool }.
+Definition rs_case_ok (c : rs_case) : bool :=
+  let r := restart_check (fun _ _ => rs_masks c) (rs_state c) in
+  Bool.eqb (fst r) (rs_flag c)
+  && bl_eqb (r_pn (snd r)) (rs_pn c) && bl_eqb (r_pb (snd r)) (rs_pb c)
+  && bl_eqb (r_an (snd r)) (rs_an c) && bl_eqb (r_ab (snd r)) (rs_ab c).
